@@ -21,6 +21,8 @@ type cloner struct {
 	foreignSubst bool
 	substSrc     *types.Info
 	substNested  map[types.Object]ast.Expr
+	// fieldSubst: `v.f` for these struct-valued objects is replaced by (a copy of) the expression the function returns for f
+	fieldSubst map[types.Object]func(field string) ast.Expr
 	rename map[types.Object]string // identifiers denoting these objects are spelled with the new name
 	repl   map[ast.Expr]ast.Expr   // these nodes are replaced (by identity) with the given expression, which is not copied
 }
@@ -155,6 +157,22 @@ func (c *cloner) Expr(e ast.Expr) ast.Expr {
 		c.regExpr(x, n)
 		return n
 	case *ast.SelectorExpr:
+		if c.fieldSubst != nil {
+			if id, ok := ast.Unparen(x.X).(*ast.Ident); ok {
+				if fn, ok := c.fieldSubst[src.Uses[id]]; ok && src.Uses[id] != nil {
+					if rep := fn(x.Sel.Name); rep != nil {
+						sub := &cloner{info: c.info, src: c.src, subst: c.subst, fieldSubst: c.fieldSubst, at: x.Pos(), onLit: c.onLit, depth: c.depth + 1}
+						out := sub.Expr(rep)
+						if needsParen(out) {
+							p := &ast.ParenExpr{Lparen: x.Pos(), X: out, Rparen: x.Pos()}
+							c.regExpr(rep, p)
+							out = p
+						}
+						return out
+					}
+				}
+			}
+		}
 		sel := *x.Sel
 		sel.NamePos = c.pos(x.Sel.NamePos)
 		if o, ok := src.Uses[x.Sel]; ok {
